@@ -58,13 +58,13 @@ fn dispatch_idles_body(&mut self, idles_cell: &mut Vec<IdleCallback<'l, Data>>, 
 //@ spec
         ensures r is Ok ==> final(self).events_done(),
                 // frame (ASSUMED for the whole function; its slices never touch the field): the shared stop flag is the same object
-                final(self).stop_flag() == old(self).stop_flag(),
+                final(self).stop_flag() == old(self).stop_flag(), final(self).ready_flag() == old(self).ready_flag(),
 //@ enditem
 //@ item src/loop_logic.rs / impl EventLoop<'l, Data> / fn dispatch_idles props=C13 sigonly
 //@ spec
         // C13: idle callbacks run only after the source callbacks of a dispatch whose event phase succeeded
         requires old(self).events_done(),
-        ensures final(self).idles_done(), final(self).stop_flag() == old(self).stop_flag(),
+        ensures final(self).idles_done(), final(self).stop_flag() == old(self).stop_flag(), final(self).ready_flag() == old(self).ready_flag(),
 //@ enditem
 //@ item src/loop_logic.rs / impl EventLoop<'l, Data> / fn dispatch props=C13 ret=r
 //@ spec
